@@ -136,7 +136,10 @@ PushBlob(r, c, dd, ds) ==
             /\ touched' = touched \cup {r}
             /\ res' = OkDesc(c, None)
        ELSE /\ res' = ErrR(IF dd # c THEN "DIGEST_INVALID" ELSE "SIZE_INVALID")
-            /\ UNCHANGED <<blobs, touched>>
+            \* a refused push stores nothing; whether the (empty) repository now exists is
+            \* not fixed (over HTTP the upload session was opened before the refusal)
+            /\ touched' \in {touched, touched \cup {r}}
+            /\ UNCHANGED blobs
   /\ UNCHANGED <<imm, mans, tags, ups>>
 
 MountBlob(from, to, c) ==
@@ -152,7 +155,8 @@ PushManifest(r, t, c, mt) ==
   /\ IF t # None /\ imm /\ Has(tags[r], t) THEN
         IF tags[r][t].c = c /\ tags[r][t].mt = mt
           THEN res' = OkDesc(c, mt) /\ UNCHANGED <<mans, tags>>
-          ELSE res' = ErrR("DENIED") /\ UNCHANGED <<mans, tags>>
+          \* refused because the tag is taken; an ill-formed manifest may be refused as such
+          ELSE res' = ErrR(IF View(c, mt).wf THEN "DENIED" ELSE "FAIL") /\ UNCHANGED <<mans, tags>>
      ELSE IF Acceptable(r, c, mt) THEN
         /\ mans' = [mans EXCEPT ![r] = Put(@, c, mt)]
         /\ tags' = IF t = None THEN tags ELSE [tags EXCEPT ![r] = Put(@, t, [c |-> c, mt |-> mt])]
@@ -243,16 +247,23 @@ ResolveBlob(r, c) ==
 OnBoundary(s, n) == \E k \in 0..Len(s) : SizeOf(SubSeq(s, 1, k)) = n
 ElemsBefore(s, n) == CHOOSE k \in 0..Len(s) : SizeOf(SubSeq(s, 1, k)) = n
 Clamp(c, o1) == IF o1 < 0 \/ o1 > Cat[c].size THEN Cat[c].size ELSE o1
+\* A request for a non-empty range [o0, o1) (o1 < 0: to the end) of a present blob must give
+\* exactly the slice, clamped to the blob; if nothing is left after clamping, or if the
+\* request itself is empty or inverted (HTTP cannot even express that), the call may fail or
+\* give the empty slice.
 GetBlobRange(r, c, o0, o1) ==
-  /\ IF c \notin blobs[r] THEN \E code \in Unknowns(r, "BLOB_UNKNOWN") : res' = ErrR(code)
+  /\ IF o0 < 0 \/ (o1 >= 0 /\ o1 <= o0) THEN
+        \/ res' = ErrR("FAIL")
+        \/ c \in blobs[r] /\ o0 >= 0 /\ o0 = Clamp(c, o1) /\ res' = OkRange(c, None, <<>>)
+     ELSE IF c \notin blobs[r] THEN \E code \in Unknowns(r, "BLOB_UNKNOWN") : res' = ErrR(code)
      ELSE LET e == Clamp(c, o1)
               s == Cat[c].bytes IN
-          IF o0 >= 0 /\ o0 < e THEN
+          IF o0 < e THEN
              IF OnBoundary(s, o0) /\ OnBoundary(s, e)
                THEN res' = OkRange(c, None, SubSeq(s, ElemsBefore(s, o0) + 1, ElemsBefore(s, e)))
                ELSE res' = OkDesc(c, None)
           ELSE \/ res' = ErrR("FAIL")
-               \/ o0 >= 0 /\ o0 = e /\ res' = OkRange(c, None, <<>>)
+               \/ o0 = e /\ res' = OkRange(c, None, <<>>)
   /\ UNCHANGED state
 GetManifest(r, c) ==
   /\ IF Has(mans[r], c) THEN res' = OkRead(c, mans[r][c])
